@@ -10,6 +10,11 @@ NOTE_COMMON = ("Trusted: Lean 4.33 kernel with axioms propext/Classical.choice/Q
                "rounding modes; third-party libraries, Rust std, cffi, md5, OS are trusted. ")
 
 CLAIMED = {
+    "C15": dict(
+        text="PARTIAL by nature. Lean theorems over an ownership model (heap of sketch cells, handles, frozen flags; for each API entry point whether it writes its receiver and whether its result is fresh or an alias): frame rule (only a mutator's receiver cell can change), frozen objects refuse every mutator and keep their content through EVERY history (frozen_forever), to_mutable always yields a fresh cell so a mutable copy shares no state, and the only aliases ever handed out are frozen cells or flatten() of a flat sketch. The alias table itself is checked against the real objects after every op of every generated history (content of all live objects, frozen flags, Python object identity); read-only calls (comparisons, search, prefetch, gather, compare, save/load, manifest export) are executed twice and their operands digested before and after.",
+        note=NOTE_COMMON + "The theorem is relative to the transcribed alias/clone table; CPython/cffi object lifetime and aliasing inside native code are observed by the monitor, not proved.",
+        technique="Lean 4 frame/invariant proofs over an ownership model + object-table monitor correspondence after every op",
+        ref="DESIGN.md section 5 C15"),
     "C03": dict(
         text="Lean theorems: (A) downsampling keeps exactly the hashes at or below the new threshold with their counts, equals sketching the same additions directly at the coarser value, composes, and upsampling is refused (Rust and Python layers); (B) for EVERY scaled value 1..2^31, analytically (no enumeration): Python .scaled, Rust scaled(), copy/pickle, Python downsample and the BTree conversion all reproduce S / the same threshold, proved over an exact integer model of binary64 division and rounding whose rounding modes are re-read from the source by the translator on every run. Tied to the code by the scaled stream (every conversion pipeline incl. count_common(downsample=True) both ways) and, in the thorough tier, a contiguous sweep 1..2^21 of the real code against the model.",
         note=NOTE_COMMON + "IEEE-754 correct rounding of hardware division and of CPython int/int true division is assumed (that is what Float64.lean models). Above 2^31.5 the threshold no longer determines scaled: known finding D22.",
